@@ -1581,6 +1581,33 @@ impl VirtualFileSystem for Memfs {
         let dst_root = self._abs(&guard, dst)?;
         let copy_into = self._is_dir(&guard, &dst_root);
 
+        // Validate everything up front so that a failed move leaves the filesystem untouched
+        let src_is_dir = match guard.get_entry(&src_root) {
+            Some(entry) => entry.is_dir() && !entry.is_symlink(),
+            None => return Err(PathError::does_not_exist(&src_root).into()),
+        };
+        let dst_top = if copy_into { dst_root.mash(src_root.base()?) } else { dst_root.clone() };
+        if dst_top == src_root {
+            return Ok(());
+        }
+        if dst_top.starts_with(&src_root) {
+            // moving the root or moving a directory into itself
+            return Err(PathError::exists_already(&src_root).into());
+        }
+        match guard.get_entry(&dst_top.dir()?) {
+            Some(parent) if parent.is_dir() && !parent.is_symlink() => {},
+            Some(_) => return Err(PathError::is_not_dir(dst_top.dir()?).into()),
+            None => return Err(PathError::does_not_exist(dst_top.dir()?).into()),
+        }
+        if let Some(entry) = guard.get_entry(&dst_top) {
+            // Only a file or link can be replaced and only by another file or link
+            if src_is_dir || (entry.is_dir() && !entry.is_symlink()) {
+                return Err(PathError::exists_already(&dst_top).into());
+            }
+            guard.remove_file(&dst_top);
+            guard.remove_entry(&dst_top);
+        }
+
         let mut paths = vec![src_root.clone()];
         while let Some(src_path) = paths.pop() {
             let dst_path = if copy_into {
